@@ -77,6 +77,7 @@ def outcomeStr {α} (o : Outcome α) (f : α → String) : String :=
   | .err "notfound" => "err=notfound"
   | .err "sleepfirst" => "err=sleepfirst"
   | .err "negweight" => "err=negweight"
+  | .err "toomany" => "err=toomany"
   | .err e => "err=other:" ++ e
   | .panic p => "panic:" ++ p
 
